@@ -92,6 +92,25 @@ theorem collect_mem_done (ps : List Param) : ∀ (ts : List Tok) (i paren : Nat)
       · exact ih _ _ _ _ _ _ h d (List.mem_cons_of_mem _ hd)
     · exact ih _ _ _ _ _ _ h d hd
 
+theorem argsOK_head {ms0 : List Macro} {L rest : List Tok} (h : ArgsOK ms0 L rest) (hl : rest.length < L.length) :
+    ∀ t r, L = t :: r → t.kind ≠ .TNEWLINE ∧ t.kind ≠ .THASH ∧ t.kind ≠ .TNONE := by
+  intro t r hr
+  have := take_consumed_head h.raw hl t r hr
+  exact ⟨this.1, this.2.1, this.2.2.1⟩
+
+/-- what `expand` does on an invocation in the text (fuel `n`), against one step of the reference:
+the statement that the argument loop needs for invocations nested in arguments -/
+def CallSpec (ms0 : List Macro) (n : Nat) : Prop :=
+  ∀ (s1 s2 : St) (T lp : Tok) (r' : List Tok) (F : Macro) (args : List (List Tok)) (rest : List Tok),
+    GoodP ms0 s1 → s1.ctx = [] → s1.raw = lp :: r' → T.kind = .TIDENT → T.hide = false →
+    macroget ms0 (T.lit.getD []) = some F → F.func = true → lp.kind = .TLPAREN → lp.hide = false →
+    collect F.params 0 0 [] [] r' = .ok (args, rest) → ArgsOK ms0 r' rest → (∀ a ∈ args, a ≠ []) →
+    exec n (.expand T) s1 = .ok s2 →
+    GoodP ms0 s2 ∧ s2.raw = rest ∧ s2.rb = true ∧ flat s2.macros s2.ctx ≠ [] ∧
+    ∃ c, ∀ K, c ≤ K → ∀ X, outE (expandH false (K + 1) (tblF ms0)
+        (iP ms0 T :: iP ms0 lp :: ((r'.take (r'.length - rest.length)).map (iP ms0) ++ X))) =
+      outE (expandH false K (tblF ms0) (absX ms0 s2 X))
+
 /-- the step of the reference-side invariant of the current argument: after the token `e.t`
 (head `H` of the pending source) has been handled by `expand` (`hsim`), the expansion of the raw
 tokens read so far delivers what `cur` now holds and continues with what the stack now holds -/
@@ -119,12 +138,13 @@ object-like macros: if it completes, it has consumed what `collect` cuts out of 
 every stored argument is the complete macro replacement of its tokens (`ArgsRel`). -/
 theorem efLoopP (ms0 : List Macro) (hTb : TblOK ms0) (ps : List Param) (name : Name)
     (hnv : ∀ p ∈ ps, p.fvar = false) :
-    ∀ (n : Nat) (e : EF) (st sF : St) (Lraw : List Tok) (pend : List Item) (CURraw CURexp : List Tok)
+    ∀ (n : Nat), (∀ m, m < n → CallSpec ms0 m) →
+    ∀ (e : EF) (st sF : St) (Lraw : List Tok) (pend : List Item) (CURraw CURexp : List Tok)
       (DONEraw args : List (List Tok)) (rest : List Tok),
     exec n (.efLoop e) st = .ok sF → e.m.params = ps → e.m.name = name → e.depth = 0 → e.i < ps.length →
     GoodP ms0 st → Mode ms0 e st Lraw pend →
     collect ps e.i e.paren CURraw DONEraw Lraw = .ok (args, rest) →
-    (∀ x ∈ Lraw.take (Lraw.length - rest.length), ArgTokOK ms0 x) →
+    ArgsOK ms0 Lraw rest →
     (∀ a ∈ args, a ≠ []) → DONEraw.length = e.i →
     ArgsRel ms0 ps DONEraw.reverse e.done.reverse →
     (e.cur = if (ps.getD e.i default).ftok = true then CURexp else []) →
@@ -136,9 +156,10 @@ theorem efLoopP (ms0 : List Macro) (hTb : TblOK ms0) (ps : List Param) (name : N
       sF = { stL with macros := setArgs stL.macros name ARGS } ∧ ArgsRel ms0 ps args ARGS := by
   intro n
   induction n with
-  | zero => intro e st sF Lraw pend CURraw CURexp DONEraw args rest h; cases h
-  | succ k ih =>
-    intro e st sF Lraw pend CURraw CURexp DONEraw args rest h hps hname hd0 hi g hmode hcol hok hane hdl hdone hcur hci hnf
+  | zero => intro _ e st sF Lraw pend CURraw CURexp DONEraw args rest h; cases h
+  | succ k ih0 =>
+    intro hcs e st sF Lraw pend CURraw CURexp DONEraw args rest h hps hname hd0 hi g hmode hcol hok hane hdl hdone hcur hci hnf
+    have ih := ih0 (fun m hm => hcs m (by omega))
     change efLoopBody (exec k) e st = .ok sF at h
     have hne : e.t.kind ≠ .TEOF := by
       intro heof
@@ -153,6 +174,7 @@ theorem efLoopP (ms0 : List Macro) (hTb : TblOK ms0) (ps : List Param) (name : N
         · exact hL
         · rw [he] at hne; exact absurd rfl hne
       subst hL'
+      have hinv := argsOK_cons_inv hok hrl
       have hdep : st.depth = 0 := by rw [g.inv.depth, hctx]; rfl
       have hl : st.depth ≤ e.depth := by omega
       have habs0 : ∀ Y, absX ms0 st Y = Y := fun Y => absX_nil_ctx ms0 st Y hctx
@@ -204,7 +226,14 @@ theorem efLoopP (ms0 : List Macro) (hTb : TblOK ms0) (ps : List Param) (name : N
             have : e.i + 1 ≠ ps.length := fun hh => hf (.inr hh)
             omega
           have hrl' := collect_rest_lt ps _ _ _ _ _ _ _ hcol
-          obtain ⟨_, hok', hhead⟩ := take_consumed hok hrl'
+          have hok' : ArgsOK ms0 st.raw rest := by
+            rcases hinv with ⟨_, h'⟩ | ⟨lp, r'', FG, argsG, rest'', _, c1, _⟩
+            · exact h'
+            · exfalso
+              rcases hc.2 with hk | hk
+              · rw [c1] at hk; cases hk
+              · rw [c1] at hk; cases hk.1
+          have hhead := argsOK_head hok' hrl'
           cases ha : exec k (.argLoop false) st with
           | error er =>
             rw [efLoop_nextarg_err (exec k) e st hne hl hc (by rw [hps]; exact hf) er ha] at h
@@ -235,75 +264,141 @@ theorem efLoopP (ms0 : List Macro) (hTb : TblOK ms0) (ps : List Param) (name : N
         rw [if_neg hc'] at hcol
         have hcol' : collect ps e.i (nextParen e) (e.t :: CURraw) DONEraw st.raw = .ok (args, rest) := hcol
         have hrl' := collect_rest_lt ps _ _ _ _ _ _ _ hcol'
-        obtain ⟨htok, hok', hhead⟩ := take_consumed hok hrl'
         by_cases hp : (ps.getD e.i default).ftok = true
         · have hp' : (e.m.params.getD e.i default).ftok = true := by rw [hps]; exact hp
           obtain ⟨hci1, hci2, hci3⟩ := hci hp
           have hcure : e.cur = CURexp := by rw [hcur, if_pos hp]
-          cases hx : exec k (.expand e.t) st with
-          | error er =>
-            rw [efLoop_go_err1 (exec k) e st hne (fun hh => hc hh.2) hp' er hx] at h
-            cases h
-          | ok sx =>
-            have hsb := pushEv_fields e st sx
-            cases ha : exec k (.argLoop false) (pushEv e st sx) with
+          rcases hinv with ⟨htok, hok'⟩ | ⟨lp, r'', FG, argsG, rest'', hr, c1, c2, c3, c4, c5, c5', c6, c7, c8, c9⟩
+          · have hhead := argsOK_head hok' hrl'
+            cases hx : exec k (.expand e.t) st with
             | error er =>
-              rw [efLoop_go_err2 (exec k) e st hne (fun hh => hc hh.2) hp' sx er hx ha] at h
+              rw [efLoop_go_err1 (exec k) e st hne (fun hh => hc hh.2) hp' er hx] at h
               cases h
-            | ok st2 =>
-              rw [efLoop_go (exec k) e st hne (fun hh => hc hh.2) hp' sx st2 hx ha] at h
-              simp only [hl, ↓reduceIte, true_and] at h
-              obtain ⟨gx, hrawx, _⟩ := expand_simP ms0 hTb k st sx e.t [] g htok.flatP hx
-              have gp : GoodP ms0 (pushEv e st sx) :=
-                goodP_congr gx hsb.2.1 hsb.2.2.1 hsb.2.2.2.1 hsb.2.2.2.2.1 hsb.2.2.2.2.2.1
-              have hrawp : (pushEv e st sx).raw = st.raw := by rw [hsb.1, hrawx]
-              obtain ⟨g2, hR⟩ := argLoopP ms0 k _ st2 gp (by rw [hrawp]; exact hhead) ha
-              have hm := modeAfter ms0 (pushEv e st sx) st2
-                { e with depth := st.depth, paren := nextParen e,
-                         str := if (e.m.params.getD e.i default).fstr = true then stringize e.str e.t else e.str,
-                         cur := if sx.rb = true then e.cur else sx.rt :: e.cur, t := st2.rt } hR rfl
-              rw [hrawp, absX_congr ms0 [] hsb.2.1 hsb.2.2.1] at hm
-              have hsim : ∀ Y,
-                  ((sx.rb = true ∧ ∀ K, outE (expandH false (K + 1) (tblF ms0) (.tok (mkHp ms0 [] e.t) :: absX ms0 st Y))
-                      = outE (expandH false K (tblF ms0) (absX ms0 sx Y))) ∨
-                   (sx.rb = false ∧ sx.ctx = st.ctx ∧ sx.macros = st.macros ∧ sx.rt = sx.rt ∧
-                      ∀ K, outE (expandH false (K + 1) (tblF ms0) (.tok (mkHp ms0 [] e.t) :: absX ms0 st Y))
-                        = consE (mkHp ms0 [] sx.rt) (outE (expandH false K (tblF ms0) (absX ms0 st Y))))) := by
-                intro Y
-                obtain ⟨_, _, hcase⟩ := expand_simP ms0 hTb k st sx e.t Y g htok.flatP hx
-                rw [hhs] at hcase
-                rcases hcase with ⟨a1, _, _, a4⟩ | ⟨a1, a2, a3, _, _, _, a7⟩
-                · exact .inl ⟨a1, a4⟩
-                · exact .inr ⟨a1, a2, a3, rfl, a7⟩
-              have hci' := ci_step (ms0 := ms0) (A := (e.t :: CURraw).reverse.map (iP ms0)) (H := mkHp ms0 [] e.t)
-                (st := st) (sx := sx) (rt := sx.rt) (cur := CURexp) rfl
-                (fun Y => by
-                  have := hci1 (iP ms0 e.t :: Y)
-                  simpa [hpend, habs0, iP] using this) hsim
-              refine ih _ st2 sF st.raw (absX ms0 sx []) (e.t :: CURraw) (if sx.rb = true then CURexp else sx.rt :: CURexp)
-                DONEraw args rest h hps hname hdep hi g2 hm hcol' hok' hane hdl hdone ?_ ?_ (fun hh => by rw [hp] at hh; cases hh)
-              · simp only [hp, ↓reduceIte, hcure]
-              · intro _
-                refine ⟨fun Y => ?_, fun _ => ?_, ?_⟩
-                · rw [absX_append]; exact hci' Y
-                · obtain ⟨_, _, hcase⟩ := expand_simP ms0 hTb k st sx e.t [] g htok.flatP hx
-                  rcases hcase with ⟨a1, _, a3, _⟩ | ⟨a1, _⟩
+            | ok sx =>
+              have hsb := pushEv_fields e st sx
+              cases ha : exec k (.argLoop false) (pushEv e st sx) with
+              | error er =>
+                rw [efLoop_go_err2 (exec k) e st hne (fun hh => hc hh.2) hp' sx er hx ha] at h
+                cases h
+              | ok st2 =>
+                rw [efLoop_go (exec k) e st hne (fun hh => hc hh.2) hp' sx st2 hx ha] at h
+                simp only [hl, ↓reduceIte, true_and] at h
+                obtain ⟨gx, hrawx, _⟩ := expand_simP ms0 hTb k st sx e.t [] g htok.flatP hx
+                have gp : GoodP ms0 (pushEv e st sx) :=
+                  goodP_congr gx hsb.2.1 hsb.2.2.1 hsb.2.2.2.1 hsb.2.2.2.2.1 hsb.2.2.2.2.2.1
+                have hrawp : (pushEv e st sx).raw = st.raw := by rw [hsb.1, hrawx]
+                obtain ⟨g2, hR⟩ := argLoopP ms0 k _ st2 gp (by rw [hrawp]; exact hhead) ha
+                have hm := modeAfter ms0 (pushEv e st sx) st2
+                  { e with depth := st.depth, paren := nextParen e,
+                           str := if (e.m.params.getD e.i default).fstr = true then stringize e.str e.t else e.str,
+                           cur := if sx.rb = true then e.cur else sx.rt :: e.cur, t := st2.rt } hR rfl
+                rw [hrawp, absX_congr ms0 [] hsb.2.1 hsb.2.2.1] at hm
+                have hsim : ∀ Y,
+                    ((sx.rb = true ∧ ∀ K, outE (expandH false (K + 1) (tblF ms0) (.tok (mkHp ms0 [] e.t) :: absX ms0 st Y))
+                        = outE (expandH false K (tblF ms0) (absX ms0 sx Y))) ∨
+                     (sx.rb = false ∧ sx.ctx = st.ctx ∧ sx.macros = st.macros ∧ sx.rt = sx.rt ∧
+                        ∀ K, outE (expandH false (K + 1) (tblF ms0) (.tok (mkHp ms0 [] e.t) :: absX ms0 st Y))
+                          = consE (mkHp ms0 [] sx.rt) (outE (expandH false K (tblF ms0) (absX ms0 st Y))))) := by
+                  intro Y
+                  obtain ⟨_, _, hcase⟩ := expand_simP ms0 hTb k st sx e.t Y g htok.flatP hx
+                  rw [hhs] at hcase
+                  rcases hcase with ⟨a1, _, _, a4⟩ | ⟨a1, a2, a3, _, _, _, a7⟩
+                  · exact .inl ⟨a1, a4⟩
+                  · exact .inr ⟨a1, a2, a3, rfl, a7⟩
+                have hci' := ci_step (ms0 := ms0) (A := (e.t :: CURraw).reverse.map (iP ms0)) (H := mkHp ms0 [] e.t)
+                  (st := st) (sx := sx) (rt := sx.rt) (cur := CURexp) rfl
+                  (fun Y => by
+                    have := hci1 (iP ms0 e.t :: Y)
+                    simpa [hpend, habs0, iP] using this) hsim
+                refine ih _ st2 sF st.raw (absX ms0 sx []) (e.t :: CURraw) (if sx.rb = true then CURexp else sx.rt :: CURexp)
+                  DONEraw args rest h hps hname hdep hi g2 hm hcol' hok' hane hdl hdone ?_ ?_ (fun hh => by rw [hp] at hh; cases hh)
+                · simp only [hp, ↓reduceIte, hcure]
+                · intro _
+                  refine ⟨fun Y => ?_, fun _ => ?_, ?_⟩
+                  · rw [absX_append]; exact hci' Y
+                  · obtain ⟨_, _, hcase⟩ := expand_simP ms0 hTb k st sx e.t [] g htok.flatP hx
+                    rcases hcase with ⟨a1, _, a3, _⟩ | ⟨a1, _⟩
+                    · right
+                      simp only [absX, List.append_nil]
+                      intro hh
+                      exact flatG_ne_nil (annHp ms0) _ _ a3 (List.map_eq_nil_iff.mp hh)
+                    · left; simp [a1]
+                  · obtain ⟨_, _, hcase⟩ := expand_simP ms0 hTb k st sx e.t [] g htok.flatP hx
+                    rcases hcase with ⟨a1, _⟩ | ⟨a1, _, _, _, a5, a6, _⟩
+                    · simpa [a1] using hci3
+                    · intro x hx'
+                      simp only [a1, Bool.false_eq_true, ↓reduceIte, List.mem_cons] at hx'
+                      rcases hx' with rfl | hx'
+                      · exact flatP_of_kl a5 a6 htok.flatP
+                      · exact hci3 x hx'
+          · -- an invocation nested in the argument
+            have hnp : nextParen e = e.paren := by
+              unfold nextParen; rw [c1]; simp
+            have hFGsf := hTb.func FG (macroget_mem c3).1 c4
+            have hcol2 : collect ps e.i e.paren
+                ((r''.take (r''.length - rest''.length)).reverse ++ lp :: e.t :: CURraw) DONEraw rest'' = .ok (args, rest) := by
+              rw [hnp, hr, collect] at hcol'
+              have hnb : ¬ (e.paren = 0 ∧ (lp.kind = .TRPAREN ∨ (lp.kind = .TCOMMA ∧ (ps.getD e.i default).fvar = false))) := by
+                rw [c5]; simp
+              rw [if_neg hnb] at hcol'
+              simp only [c5, ↓reduceIte] at hcol'
+              have := collect_skip FG.params ps hFGsf.novar r'' 0 0 [] [] argsG rest'' c6 e.i e.paren (lp :: e.t :: CURraw) DONEraw
+              rw [← this]; exact hcol'
+            have hrl2 := collect_rest_lt ps _ _ _ _ _ _ _ hcol2
+            cases hx : exec k (.expand e.t) st with
+            | error er =>
+              rw [efLoop_go_err1 (exec k) e st hne (fun hh => hc hh.2) hp' er hx] at h
+              cases h
+            | ok sx =>
+              have hsb := pushEv_fields e st sx
+              cases ha : exec k (.argLoop false) (pushEv e st sx) with
+              | error er =>
+                rw [efLoop_go_err2 (exec k) e st hne (fun hh => hc hh.2) hp' sx er hx ha] at h
+                cases h
+              | ok st2 =>
+                rw [efLoop_go (exec k) e st hne (fun hh => hc hh.2) hp' sx st2 hx ha] at h
+                simp only [hl, ↓reduceIte, true_and] at h
+                obtain ⟨gx, hrawx, hrbx, hflx, c, hK⟩ := hcs k (Nat.lt_succ_self k) st sx e.t lp r'' FG argsG rest'' g hctx hr
+                  c1 c2 c3 c4 c5 c5' c6 c7 c8 hx
+                have gp : GoodP ms0 (pushEv e st sx) :=
+                  goodP_congr gx hsb.2.1 hsb.2.2.1 hsb.2.2.2.1 hsb.2.2.2.2.1 hsb.2.2.2.2.2.1
+                have hrawp : (pushEv e st sx).raw = rest'' := by rw [hsb.1, hrawx]
+                obtain ⟨g2, hR⟩ := argLoopP ms0 k _ st2 gp (by rw [hrawp]; exact argsOK_head c9 hrl2) ha
+                have hm := modeAfter ms0 (pushEv e st sx) st2
+                  { e with depth := st.depth, paren := nextParen e,
+                           str := if (e.m.params.getD e.i default).fstr = true then stringize e.str e.t else e.str,
+                           cur := if sx.rb = true then e.cur else sx.rt :: e.cur, t := st2.rt } hR rfl
+                rw [hrawp, absX_congr ms0 [] hsb.2.1 hsb.2.2.1] at hm
+                have hcol3 : collect ps e.i (nextParen e)
+                    ((r''.take (r''.length - rest''.length)).reverse ++ lp :: e.t :: CURraw) DONEraw rest'' = .ok (args, rest) := by
+                  rw [hnp]; exact hcol2
+                refine ih _ st2 sF rest'' (absX ms0 sx []) ((r''.take (r''.length - rest''.length)).reverse ++ lp :: e.t :: CURraw)
+                  CURexp DONEraw args rest h hps hname hdep hi g2 hm hcol3 c9 hane hdl hdone ?_ ?_ (fun hh => by rw [hp] at hh; cases hh)
+                · simp only [hp, ↓reduceIte, hcure, hrbx]
+                · intro _
+                  refine ⟨fun Y => ?_, fun _ => ?_, hci3⟩
+                  · have h1 := hci1 (iP ms0 e.t :: iP ms0 lp :: ((r''.take (r''.length - rest''.length)).map (iP ms0) ++ Y))
+                    have h2 : LinkE (tblF ms0) (iP ms0 e.t :: iP ms0 lp :: ((r''.take (r''.length - rest''.length)).map (iP ms0) ++ Y)) []
+                        (absX ms0 sx Y) := LinkE.of_eq c (fun K hKc => hK K hKc Y)
+                    rw [hpend, List.nil_append] at h1
+                    have := h1.trans h2
+                    rw [absX_append]
+                    simpa [List.reverse_append, List.map_append] using this
                   · right
                     simp only [absX, List.append_nil]
                     intro hh
-                    exact flatG_ne_nil (annHp ms0) _ _ a3 (List.map_eq_nil_iff.mp hh)
-                  · left; simp [a1]
-                · obtain ⟨_, _, hcase⟩ := expand_simP ms0 hTb k st sx e.t [] g htok.flatP hx
-                  rcases hcase with ⟨a1, _⟩ | ⟨a1, _, _, _, a5, a6, _⟩
-                  · simpa [a1] using hci3
-                  · intro x hx'
-                    simp only [a1, Bool.false_eq_true, ↓reduceIte, List.mem_cons] at hx'
-                    rcases hx' with rfl | hx'
-                    · exact flatP_of_kl a5 a6 htok.flatP
-                    · exact hci3 x hx'
+                    exact flatG_ne_nil (annHp ms0) _ _ hflx (List.map_eq_nil_iff.mp hh)
         · have hpf : (ps.getD e.i default).ftok = false := by cases hh : (ps.getD e.i default).ftok <;> simp_all
           have hp' : (e.m.params.getD e.i default).ftok = false := by rw [hps]; exact hpf
           have hcure : e.cur = [] := by rw [hcur, if_neg hp]
+          have hok' : ArgsOK ms0 st.raw rest := by
+            rcases hinv with ⟨_, h'⟩ | ⟨lp, r'', FG, argsG, rest'', hr, c1, c2, c3, c4, c5, c5', c6, c7, c8, c9⟩
+            · exact h'
+            · rw [hr]
+              refine .tok lp r'' rest ⟨by rw [c5]; decide, by rw [c5]; decide, by rw [c5]; decide, by rw [c5]; decide, ?_, c5'⟩
+                (c7.trans c9)
+              intro hf; have := hf.1; rw [c5] at this; cases this
+          have hhead := argsOK_head hok' hrl'
           cases ha : exec k (.argLoop false) st with
           | error er =>
             rw [efLoop_skip_err (exec k) e st hne hl hc hp' er ha] at h
@@ -332,7 +427,7 @@ theorem efLoopP (ms0 : List Macro) (hTb : TblOK ms0) (ps : List Param) (name : N
       have hp' : (e.m.params.getD e.i default).ftok = true := by rw [hps]; exact hp
       obtain ⟨hci1, hci2, hci3⟩ := hci hp
       have hcure : e.cur = CURexp := by rw [hcur, if_pos hp]
-      have hhead := take_consumed_head hok hrl
+      have hhead := argsOK_head hok hrl
       cases hx : exec k (.expand e.t) st with
       | error er =>
         rw [efLoop_go_err1 (exec k) e st hne (fun hh => hl hh.1) hp' er hx] at h
